@@ -258,10 +258,21 @@ def get_element(topo, ref):
     raise AssertionError(ref)
 
 
+def _fresh_objects(op):
+    import json
+    try:
+        return json.loads(json.dumps(op))
+    except (TypeError, ValueError):
+        return op
+
+
 def execute(topo, op):
     """Apply one descriptor.  Returns the library's return value; raises whatever the library raises
     (Unresolved if the handle cannot be obtained through the views)."""
     from fim.user import (NodeType, ComponentType, ComponentModelType, ServiceType, InterfaceType, LinkType)
+    # every call gets its own string objects (as a caller reading names from a file or a request would pass): equal-but-not-
+    # identical names, ids and sites are what distinguishes `==` from `is` in the code under observation
+    op = _fresh_objects(op)
     o = op['op']
     kw = mk_kwargs(op.get('kw'))
     if o == 'add_node':
